@@ -18,8 +18,12 @@
    RunEngineInterrupted unless the task itself raised (then that exception).  [C10_full] as first stated is false
    ([C10_full_refuted]: it allows the call that ends to be abort()/stop()/halt(), whose result is the run uids); exit
    status 'abort' is not guaranteed ([C10_status_success_when_plan_swallows]): it is decided by how the outermost plan
-   ends (C02).  Still partial: continuations containing further requests (abort/stop/halt after the failed pause),
-   and "every cleanup block entered exactly once" on the generator level (C20-C22 have the generator semantics).
+   ends (C02).  [C10_any_requests]: whatever else arrives after the failed request -- abort, stop, halt, further pauses and
+   suspensions, failing statuses, any main-thread call except a new RE(...)/resume() -- the engine never becomes paused,
+   and once the task has finished it is idle, marked interrupted, with every run stopped (no hypothesis on where the
+   request lands: the final sleep of `_run` included).  Still partial: WHAT is thrown when further requests arrive before
+   the task's next step (RequestAbort/PlanHalt instead of FailedPause) is only shown by the oracle, and "every cleanup
+   block entered exactly once" on the generator level (C20-C22 have the generator semantics).
    The window opened by clear_checkpoint ends at the next EXPLICIT
    checkpoint (repaired defect C09-a, fixes/C09-a.diff); implicit checkpoints (stage, close_run, ...) do not end it. *)
 From Coq Require Import List.
@@ -138,6 +142,42 @@ Theorem C10_end_to_end :
                       (forall e, r = TRaise e -> e <> ECancelled -> out = OutRaise e))).
 Proof. exact failed_pause_end_to_end. Qed.
 Print Assumptions C10_end_to_end.
+
+(* whatever follows the failed request (any requests, statuses, main-thread calls except a new RE(...)/resume()) *)
+Theorem C10_any_requests :
+  forall (P : Type) (presume : P -> input -> outcome P) (plan_of : nat -> P) (D : Type) (dev : D -> nat -> devmeth -> D * devres)
+         (d : D) (paus stag : list nat) (rec : bool) (evs1 : list event) (req : event) (evs2 : list event),
+    let s0 := init P D d paus stag rec in
+    let s1 := fst (run P presume plan_of D dev s0 evs1) in
+    let o1 := snd (run P presume plan_of D dev s0 evs1) in
+    let s3 := fst (run P presume plan_of D dev s1 (req :: evs2)) in
+    let o := snd (run P presume plan_of D dev s1 (req :: evs2)) in
+    (req = EvReqPause false \/ exists sid pre post, req = EvReqSuspend sid pre post) ->
+    state P D s1 = Running -> cache P D s1 = None ->
+    forallb ok_ev evs2 = true ->
+    no_bad (o1 ++ o) = true ->
+    Forall np o /\
+    (forall r, pc P D s3 = PcDone r ->
+       state P D s3 = Idle /\ bundlers P D s3 = [] /\ interrupted P D s3 = true /\
+       (forall u, In (DStart u) (docs_of (o1 ++ o)) -> exists xs rs n, In (DStop u xs rs n) (docs_of (o1 ++ o)))).
+Proof. exact failed_pause_any_requests. Qed.
+Print Assumptions C10_any_requests.
+
+Example C10_any_requests_nonvacuous :
+  check ex_c10_pa_tapes ex_c10_pa_ledger ex_c10_pa_paus ex_c10_pa_stag ex_c10_pa_rec ex_c10_pa_evs ex_c10_pa_obs = true /\
+  ex_c10_pa_evs = pa_evs1 ++ EvReqPause false :: pa_evs2 ++ [EvMainDone (ACall 0)] /\
+  In (EvReqAbort (RsGiven 1)) pa_evs2 /\
+  let s1 := fst (run TP (t_resume ex_c10_pa_tapes) t_plan_of nat (t_dev ex_c10_pa_ledger) (init TP nat 0 ex_c10_pa_paus ex_c10_pa_stag ex_c10_pa_rec) pa_evs1) in
+  let o1 := snd (run TP (t_resume ex_c10_pa_tapes) t_plan_of nat (t_dev ex_c10_pa_ledger) (init TP nat 0 ex_c10_pa_paus ex_c10_pa_stag ex_c10_pa_rec) pa_evs1) in
+  let s3 := fst (run TP (t_resume ex_c10_pa_tapes) t_plan_of nat (t_dev ex_c10_pa_ledger) s1 (EvReqPause false :: pa_evs2)) in
+  let o := snd (run TP (t_resume ex_c10_pa_tapes) t_plan_of nat (t_dev ex_c10_pa_ledger) s1 (EvReqPause false :: pa_evs2)) in
+  state TP nat s1 = Running /\ cache TP nat s1 = None /\ forallb ok_ev pa_evs2 = true /\ no_bad (o1 ++ o) = true /\
+  (exists r, pc TP nat s3 = PcDone r) /\
+  never_paused_b o = true /\ state TP nat s3 = Idle /\ bundlers TP nat s3 = [] /\ interrupted TP nat s3 = true.
+Proof.
+  destruct c10_any_requests_nonvacuous as (A & B & C). split; [exact A|]. split; [exact B|]. split; [|exact C].
+  right; right; left; reflexivity.
+Qed.
 
 Theorem C10_full_refuted : ~ C10_full.
 Proof. exact c10_full_refuted. Qed.
